@@ -1,5 +1,5 @@
 (* C10 — concurrent requests and block events behave as if executed one at a time.
-   Statements only (proofs: ConcTowerProofs.v, ConcBreach.v, ConcLin.v, ConcReg.v, ConcPurge.v, ConcCoarse.v, ConcDisc.v, ConcComm.v, ConcRW.v).  Model: ConcTower.v — the thread
+   Statements only (proofs: ConcTowerProofs.v, ConcBreach.v, ConcLin.v, ConcReg.v, ConcPurge.v, ConcCoarse.v, ConcDisc.v, ConcComm.v, ConcRW.v, ConcMix.v).  Model: ConcTower.v — the thread
    programs of register / add_appointment / get_appointment / get_subscription_info / block connected / block disconnected at
    lock-acquisition granularity, `run_sched` = all interleavings at EVENT granularity (every lock
    acquisition, release, action under locks and atomic height access is a step of its own).
@@ -35,6 +35,10 @@
                                                    final state are those of its run alone = of every sequential order
      C10_get_disconnect_linearizable, C10_getsub_disconnect_linearizable
                                                    reader || block disconnected: state and BOTH replies of a sequential order
+     C10_reader_against_one_thread                 reader || ANY thread: linearizability reduced to a sequential statement
+                                                   (every mix of the reader's reads over the other thread's solo states
+                                                   answers like the reader before or after it)
+     C10_get_add_off_trigger_linearizable          get_appointment || add_appointment whose locator is not in the cache
      C10_get_register_linearizable, C10_getsub_register_linearizable
                                                    reader || register (same or other user): state and BOTH replies of a
                                                    sequential order
@@ -54,10 +58,11 @@
      C10_reader_add_reply_not_linearizable         get_subscription_info || add of the same user: balance after the charge,
                                                    locators before the store: reply of neither order
    Hence `get || anything` is settled: state and the other thread's reply always (C10_writer_among_readers_runs_alone);
-   the reader's own reply is that of a sequential order against a disconnection, a registration (proved) and against
-   readers (C10_reads_linearizable), NOT against add_appointment on the trigger path nor against the purge (refuted);
-   against add_appointment off the trigger path and a block without purge it is OPEN (the exploration finds no reply
-   of neither order there).
+   the reader's own reply is that of a sequential order against a disconnection, a registration, readers and - for
+   get_appointment - add_appointment off the trigger path (proved), NOT against add_appointment on the trigger path, the
+   purge, nor - for get_subscription_info - an add_appointment of the same user (refuted); against a block without
+   purge it is OPEN (the exploration finds no reply of neither order there; C10_reader_against_one_thread reduces it
+   to the block's solo states).
    OPEN (no proof, no counterexample; the exhaustive controlled exploration of the check finds every final
    state of these pairs equal to a sequential order within its preemption bound, up to the height stamps):
      register || add, add || add (different appointment), add || disconnect,
@@ -67,7 +72,7 @@
    appointments leave the rows in the order of their critical sections, which need not be the order of either
    sequential run (the check compares sorted rows).  A proof needs the model's look-ups to be invariant under row
    permutation first; not attempted here. *)
-From TeosModel Require Import Base TxIndex Tower TowerInv Crash ConcTower ConcTowerProofs ConcBreach ConcLin ConcReg ConcPurge ConcCoarse ConcDisc ConcComm ConcRW.
+From TeosModel Require Import Base TxIndex Tower TowerInv Crash ConcTower ConcTowerProofs ConcBreach ConcLin ConcReg ConcPurge ConcCoarse ConcDisc ConcComm ConcRW ConcMix.
 From TeosModel Require Import TxIndexProofs.
 From Coq Require Import Permutation.
 From TeosModel.Gen Require Consts.
@@ -479,6 +484,38 @@ Proof.
   intros ui H. vm_compute in H. inversion H; subst. vm_compute. discriminate.
 Qed.
 
+(* ---- a reader and ONE arbitrary thread: the reduction -------------------------------------------------------------
+   R only reads, W is any thread.  The shared state passes through the states of W's solo run from t0 (`states_of`), in
+   order, and every action of R reads one of them, later actions never an earlier one (`mix`).  If every such mix run
+   of R answers like R on the initial state or on W's final state, then for ALL schedules in which both return:
+   W's reply and the final state are those of W's run alone, and R is told what it is told before or after W. *)
+Theorem C10_reader_against_one_thread t0 PR PW sched tf o ow :
+  readonly PR ->
+  (forall o', mix PR t0 (states_of PW t0) o' ->
+              Some o' = val (exec PR t0) \/ Some o' = val (exec PR (state_of (exec PW t0)))) ->
+  run_sched t0 [PR; PW] sched = (tf, [Some (TOut o); Some (TOut ow)]) ->
+  (forall s, o <> OAbort s) -> (forall s, ow <> OAbort s) ->
+  exec PW t0 = Ok ow tf /\ (exec PR t0 = Ok o t0 \/ exec PR tf = Ok o tf).
+Proof. exact (reader_against_one_thread t0 PR PW sched tf o ow). Qed.
+
+(* get_appointment (any user, any locator)  ||  add_appointment whose locator is NOT in the locator cache (off the
+   trigger path: the appointment is charged and stored, nothing is handed to the responder): state and both replies of
+   a sequential order.  (On the trigger path it is refuted: C10_reader_reply_not_linearizable.) *)
+Theorem C10_get_add_off_trigger_linearizable sc signer' loc' u loc b delay sig t0 sched tf o ow :
+  ti_get (w_cache t0) loc = None ->
+  run_sched t0 [get_p signer' loc'; add_p sc (Some u) loc b delay sig] sched = (tf, [Some (TOut o); Some (TOut ow)]) ->
+  (forall s, o <> OAbort s) -> (forall s, ow <> OAbort s) ->
+  exec (add_p sc (Some u) loc b delay sig) t0 = Ok ow tf /\
+  (exec (get_p signer' loc') t0 = Ok o t0 \/ exec (get_p signer' loc') tf = Ok o tf).
+Proof. exact (get_add_off_trigger_linearizable sc signer' loc' u loc b delay sig t0 sched tf o ow). Qed.
+
+(* non-vacuity: locator 7 is not in the cache of w_reg; the reader looks at the tables between the charge and the store *)
+Example C10_get_add_instance :
+  ti_get (w_cache w_reg) 7 = None /\
+  snd (run_sched w_reg [get_p (Some 1) 7; w_add] (repeat 0%nat 8 ++ repeat 1%nat 21 ++ repeat 0%nat 40 ++ repeat 1%nat 60))
+  = [Some (TOut (OGetRes GetNotFound)); Some (TOut (OAddRes (AddOk 120 1 9 520)))].
+Proof. split; vm_compute; reflexivity. Qed.
+
 (* ---- register and a block disconnection ------------------------------------------------------------------------
    register(u)  ||  block `hash` disconnected at height h: whatever the schedule, if both return, state and replies are
    those of a sequential order - the one in which the registration's load of the gatekeeper's height and the
@@ -589,6 +626,8 @@ Print Assumptions C10_getsub_disconnect_linearizable.
 Print Assumptions C10_register_disconnect_linearizable.
 Print Assumptions C10_get_register_linearizable.
 Print Assumptions C10_getsub_register_linearizable.
+Print Assumptions C10_reader_against_one_thread.
+Print Assumptions C10_get_add_off_trigger_linearizable.
 
 (* non-vacuity of the refined hypotheses: the locator cache of the reachable state w_reg represents a window (it was
    built by ti_new from the bootstrap blocks), its capacity is positive, and block 2001 carrying locator 7 is valid *)
